@@ -578,15 +578,51 @@ func (x *Exec) loopHeader(f *Frame, st *State, b *ssa.BasicBlock, prev *ssa.Basi
 	if ad != nil {
 		invs = ad.group
 	}
-	if len(invs) == 0 {
+	// declared clauses that name variables the code no longer has (and that the adaptation search could not map) are
+	// dropped - fewer invariants is a weaker assumption, so this is sound; the unit then fails, if at all, on the
+	// obligations that needed them - and the loop falls back to the default position invariant
+	dropped := false
+	if len(invs) > 0 {
+		e0 := env
+		if ad != nil {
+			e0 = x.frameEnv(f, st, b)
+			x.addTopLets(e0)
+			ad.apply(e0)
+		}
+		var kept []*Clause
+		for _, iv := range invs {
+			if len(x.unknownIdents(e0, []*Clause{iv})) > 0 {
+				dropped = true
+				x.assumed[fmt.Sprintf("invariant %s of loop %s#%d names variables the code does not have: clause dropped, default position invariant used instead", iv.Label, lastName(fkey), k)] = true
+				continue
+			}
+			kept = append(kept, iv)
+		}
+		invs = kept
+	}
+	if len(invs) == 0 || dropped {
 		// a loop nobody wrote an invariant for (a helper extracted by a refactoring, a new conversion loop): the walk
-		// itself is described by its position - a range loop stays inside the list it ranges over, an iterator or map
-		// walk inside its enumeration. These default clauses are proved like declared ones; whatever else the unit
-		// needs from the loop it has to state, and then fails on its own obligations, not on the missing invariant.
+		// itself is described by its position - a range loop stays inside the list it ranges over, an index loop
+		// inside the list whose length bounds it, an iterator or map walk inside its enumeration. These default clauses
+		// are proved like declared ones; whatever else the unit needs from the loop it has to state, and then fails on
+		// its own obligations, not on the missing invariant.
 		var defs []string
 		if _, ok := env.vars["rangeindex"]; ok {
 			if _, ok2 := env.vars["rangeover"]; ok2 {
 				defs = append(defs, "rangeindex >= 0 - 1 && rangeindex < len(rangeover)")
+			}
+		} else {
+			// index loop "for i := ...; i < n; i++": the counter is not negative (inside the body the loop condition bounds it from above)
+			for _, ins := range b.Instrs {
+				bo, ok := ins.(*ssa.BinOp)
+				if !ok || bo.Op != token.LSS {
+					continue
+				}
+				if phi, isPhi := bo.X.(*ssa.Phi); isPhi && phi.Comment != "" && phi.Block() == b {
+					if _, bound := env.vars[phi.Comment]; bound {
+						defs = append(defs, fmt.Sprintf("0 <= %s", phi.Comment))
+					}
+				}
 			}
 		}
 		if b0 := f.loopIter; b0 != nil {
@@ -599,12 +635,13 @@ func (x *Exec) loopHeader(f *Frame, st *State, b *ssa.BasicBlock, prev *ssa.Basi
 		if _, ok := env.vars["mr_idx"]; ok && loopHasNext(f.inLoop[b]) {
 			defs = append(defs, "0 <= mr_idx && mr_idx <= mr_n")
 		}
+		n0 := len(invs)
 		for _, d := range defs {
 			if e, err := ParseExpr(d); err == nil {
 				invs = append(invs, &Clause{Label: "auto", Expr: e, Src: d, Loop: k})
 			}
 		}
-		if len(invs) > 0 {
+		if len(invs) > n0 && !dropped {
 			x.assumed[fmt.Sprintf("loop %s#%d has no declared invariant: default position invariant used (proved as usual)", lastName(fkey), k)] = true
 		}
 	}
